@@ -1,14 +1,16 @@
 #!/bin/sh
-# tools/stage_seeds.sh C15  — copy /tmp/seed-c15-out/<i> to seeded/C15-<i> and verify each
-id=$1; low=$(echo $id | tr A-Z a-z)
-for d in /tmp/seed-$low-out/*/; do
+# tools/stage_seeds.sh C15 [r2] — copy /tmp/seed-c15[-r2]-out/<i> to seeded/C15[-r2]-<i> and verify each
+id=$1; rnd=$2; low=$(echo $id | tr A-Z a-z)
+src=/tmp/seed-$low${rnd:+-$rnd}-out
+for d in $src/*/; do
   i=$(basename $d)
-  mkdir -p /verif/seeded/$id-$i
-  cp $d/* /verif/seeded/$id-$i/
-  python3 /verif/tools/verify_seed.py /verif/seeded/$id-$i > /tmp/verify-$id-$i.log 2>&1
+  name=$id${rnd:+-$rnd}-$i
+  mkdir -p /verif/seeded/$name
+  cp $d/* /verif/seeded/$name/
+  python3 /verif/tools/verify_seed.py /verif/seeded/$name > /tmp/verify-$name.log 2>&1
   python3 - <<PY
 import json
-r=json.load(open('/verif/seeded/$id-$i/verified.json'))
-print('$id-$i', {k:r.get(k) for k in ('demo_passes_pristine','demo_fails_patched','existing_tests_pass_patched','detected','detected_with_concrete_input','check_wall_s')})
+r=json.load(open('/verif/seeded/$name/verified.json'))
+print('$name', {k:r.get(k) for k in ('demo_passes_pristine','demo_fails_patched','existing_tests_pass_patched','detected','detected_with_concrete_input','check_wall_s')})
 PY
 done
